@@ -403,6 +403,10 @@ func c12Build(u c12Upd) *c12Built {
 				break
 			}
 		}
+	case "bits-all": // every member is claimed as a participant, the signature stays that of the real ones
+		for i := 0; i < c12N; i++ {
+			bits[i/8] |= 1 << uint(i%8)
+		}
 	case "bit-remove": // first participant is dropped from the bitmap
 		for i := 0; i < c12N; i++ {
 			if c12BitAt(bits, i) {
